@@ -144,6 +144,11 @@ fn kdf(key: &[u8], magic: &[u8]) -> [u8; 16] {
     md5(&v)
 }
 
+/// (client-to-server signing, client-to-server sealing, server-to-client signing, server-to-client sealing)
+pub fn session_keys(session_key: &[u8]) -> ([u8; 16], [u8; 16], [u8; 16], [u8; 16]) {
+    (kdf(session_key, C2S_SIGN), kdf(session_key, C2S_SEAL), kdf(session_key, S2C_SIGN), kdf(session_key, S2C_SEAL))
+}
+
 /// One direction of NTLM session security (extended session security, key exchange, 128 bit).
 #[derive(Clone)]
 pub struct Direction {
@@ -338,6 +343,22 @@ pub fn verify_authenticate(
     target_info: &[u8],
     account: &Account,
 ) -> R<AuthResult> {
+    verify_authenticate_layout(negotiate, challenge, authenticate, server_challenge, challenge_flags, target_info, account, false)
+}
+
+/// `tolerate_missing_version`: also accept the non-standard layout without the Version field (MIC at 64,
+/// payload at 80) - used only to keep checking the rest of a token whose layout was already reported
+#[allow(clippy::too_many_arguments)]
+pub fn verify_authenticate_layout(
+    negotiate: &[u8],
+    challenge: &[u8],
+    authenticate: &[u8],
+    server_challenge: &[u8; 8],
+    challenge_flags: u32,
+    target_info: &[u8],
+    account: &Account,
+    tolerate_missing_version: bool,
+) -> R<AuthResult> {
     let b = authenticate;
     let mut c = Cur::new(b);
     if c.take(8)? != b"NTLMSSP\0" {
@@ -359,9 +380,14 @@ pub fn verify_authenticate(
     let version_present_in_layout;
     let payload_start = f.iter().filter(|x| x.len > 0).map(|x| x.off).min().unwrap_or(b.len());
     let mic_off;
+    let mut min_payload = 88;
     if payload_start >= 88 {
         version_present_in_layout = true;
         mic_off = 72;
+    } else if tolerate_missing_version && payload_start >= 80 {
+        version_present_in_layout = false;
+        mic_off = 64;
+        min_payload = 80;
     } else {
         return Err(format!(
             "payload starts at offset {}: the fixed part must hold the 8-byte Version field and the 16-byte MIC (payload at >= 88){}",
@@ -377,7 +403,7 @@ pub fn verify_authenticate(
             return Err(format!("{}: MaxLen {} < Len {}", x.name, x.maxlen, x.len));
         }
         if x.len > 0 {
-            if x.off < 88 || x.off + x.len > b.len() {
+            if x.off < min_payload || x.off + x.len > b.len() {
                 return Err(format!("{}: buffer ({}, {}) outside the token of {} bytes", x.name, x.off, x.len, b.len()));
             }
             ranges.push((x.off, x.off + x.len, x.name));
@@ -403,10 +429,10 @@ pub fn verify_authenticate(
         (String::from_utf8(domain_b.to_vec()).map_err(|_| "DomainName: not OEM/UTF-8".to_string())?, String::from_utf8(user_b.to_vec()).map_err(|_| "UserName: not OEM/UTF-8".to_string())?)
     };
     if user != account.user {
-        return Err(format!("UserName field does not name the account ({:?} vs {:?})", user, account.user));
+        return Err("UserName field does not name the account".to_string());
     }
     if domain != account.domain {
-        return Err(format!("DomainName field does not name the account's domain ({:?} vs {:?})", domain, account.domain));
+        return Err("DomainName field does not name the account's domain".to_string());
     }
     // NT proof
     if nt.len() < 16 + 28 + 4 {
